@@ -262,7 +262,7 @@ def run(tier, seed):
                     jobs.append((size, hk, 8, sub, 32))
     sh = core.parallel(lhenum_job, exe=bdir + "/lhenum", jobs=jobs)
     chk.absorb(sh)
-    sh = core.parallel(churn_shard, seed=seed, tier=tier, exe=bdir + "/jcdrv", nhist=1920 if tier == "quick" else 100000)
+    sh = core.parallel(churn_shard, seed=seed, tier=tier, exe=bdir + "/jcdrv", nhist=1920 if tier == "quick" else 16000)
     chk.absorb(sh)
     chk.extra["enumerated_completely"] = "all sequences of length <= %d over {add,delete,lookup} x 4 keys on lh_table_new(size 1..5) x 4 caller-supplied hash functions" % maxlen
     chk.exhaustive = False
